@@ -103,7 +103,7 @@ def execute(binary, path, env=None, timeout=120, hang_is_failure=False):
     err = p.stderr.decode('utf-8', 'replace')
     if p.returncode == 0:
         return True, None, err
-    if hang_is_failure and 'libFuzzer: timeout' in err:
+    if hang_is_failure and ('libFuzzer: timeout' in err or p.returncode == 70):
         m = re.search(r'#\d+ 0x[0-9a-f]+ in (\w+) /repo/src/([\w.\-]+):', err) or re.search(r'#\d+ 0x[0-9a-f]+ in (\w+) [^\n]*/src/([\w.\-]+):', err)
         return False, ('hang@%s(%s)' % (m.group(1), m.group(2)) if m else 'hang@?'), err
     m = _ORACLE.search(err)
@@ -112,7 +112,7 @@ def execute(binary, path, env=None, timeout=120, hang_is_failure=False):
     sig = common.san_signature(err)
     if sig:
         return False, common.sig_str(sig), err
-    if 'libFuzzer: timeout' in err or 'out-of-memory' in err:
+    if 'libFuzzer: timeout' in err or 'out-of-memory' in err or p.returncode in (70, 71):      # (libFuzzer's exit codes for its time and memory limits)
         return True, 'noise', err
     m = re.search(r'ERROR: libFuzzer: deadly signal', err)
     return False, 'crash:signal' if m else 'crash:rc=%d' % p.returncode, err
@@ -133,18 +133,28 @@ def confirm_hangs(binary, art_dir, env=None, limit=3, secs=60):
     smallest `limit` timeout artifacts are re-executed alone with a generous limit; returns {signature: [paths]} for those that still
     exceed it (signature = innermost project function on the stack that libFuzzer prints)."""
     out = {}
-    paths = sorted(glob.glob(os.path.join(art_dir, 'timeout-*')), key=lambda p: os.path.getsize(p))[:limit]
+    paths = sorted(glob.glob(os.path.join(art_dir, 'timeout-*')) + glob.glob(os.path.join(art_dir, 'oom-*')), key=lambda p: os.path.getsize(p))[:limit]
     for p in paths:
         try:
-            r = subprocess.run([binary, '-detect_leaks=0', '-rss_limit_mb=6000', '-timeout=%d' % secs, p], env=common.san_env(env or {}),
+            r = subprocess.run([binary, '-detect_leaks=0', '-rss_limit_mb=6000', '-malloc_limit_mb=6000', '-timeout=%d' % secs, p], env=common.san_env(env or {}),
                                stdout=subprocess.PIPE, stderr=subprocess.PIPE, timeout=secs + 60)
             err = r.stderr.decode('utf-8', 'replace')
+            if r.returncode == 70:
+                err += '\nlibFuzzer: timeout'
+            elif r.returncode == 71:
+                err += '\nlibFuzzer: out-of-memory'
         except subprocess.TimeoutExpired:
             err = 'libFuzzer: timeout (killed)'
-        if 'libFuzzer: timeout' not in err:
+        # an input of a few kilobytes that needs more than 6 GB when it runs alone does not "return control" on any ordinary machine either
+        kind = 'hang' if 'libFuzzer: timeout' in err else 'oom' if 'libFuzzer: out-of-memory' in err else None
+        if kind is None:
             continue
-        m = re.search(r'#\d+ 0x[0-9a-f]+ in (\w+) /repo/src/([\w.\-]+):', err) or re.search(r'#\d+ 0x[0-9a-f]+ in (\w+) [^\n]*/src/([\w.\-]+):', err)
-        sig = 'hang@%s(%s)' % (m.group(1), m.group(2)) if m else 'hang@?'
+        m = None
+        for mm in re.finditer(r'#\d+ 0x[0-9a-f]+ in (\w+) [^\n]*/src/([\w.\-]+):', err):
+            if mm.group(1) not in ('__sanitizer_print_stack_trace', 'ensureStringBufferCanHold', 'd_string_append_c', 'd_string_append', 'd_string_append_c_array', 'd_string_append_printf'):
+                m = mm
+                break
+        sig = '%s@%s(%s)' % (kind, m.group(1), m.group(2)) if m else kind + '@?'
         out.setdefault(sig, []).append(p)
     return out
 
